@@ -192,9 +192,15 @@ fn judge(t: i32, word: &[u8], route: &str, out: &Outcome, read: &[(&str, Pairs)]
             "iter_as.skip(2)" => want_all.iter().skip(2).cloned().collect(),
             _ => want_all.clone(),
         };
+        // a reader used twice may hand out the whole file or what was left: C08 only demands that
+        // whatever comes back is in order and pairs shape i with row i (C15 decides which)
+        let rest: Vec<(Option<usize>, Option<usize>)> = want_all.iter().skip(1).cloned().collect();
         match got {
             Err(e) => rep.violation(&format!("pairing:{}:error", rname), case, detail(format!("{} failed: {}", rname, e))),
             Ok(p) => {
+                if rname.ends_with("then read()") && *p == rest {
+                    continue;
+                }
                 if *p != want {
                     rep.violation(&format!("pairing:{}", rname), case, detail(format!("{} returned (shape tag, row tag) = {:?}, written {:?}", rname, p, want)));
                 }
@@ -246,7 +252,31 @@ fn run_cursor(t: i32, other: i32, word: &[u8], seed: u64, case: &str, rep: &mut 
         let r4 = pairs_of(mk().and_then(|mut r| r.iter_shapes_and_records().step_by(2).collect::<Result<Vec<_>, Error>>()));
         let r5 = pairs_of(mk().and_then(|mut r| r.iter_shapes_and_records().nth(2).into_iter().collect::<Result<Vec<_>, Error>>()));
         let r6 = pairs_of(mk().and_then(|mut r| r.iter_shapes_and_records_as::<Shape, Record>().skip(2).collect::<Result<Vec<_>, Error>>()));
-        vec![("Reader::read", r1), ("Reader::iter_shapes_and_records", r2), ("iter.skip(1)", r3), ("iter.step_by(2)", r4), ("iter.nth(2)", r5), ("iter_as.skip(2)", r6)]
+        // the complete reader WITHOUT index, and one reader used twice (a pair consumed through the
+        // iterator, then read()): whatever comes back pairs shape i with row i
+        let mkn = || -> Result<Reader<Cursor<Vec<u8>>, Cursor<Vec<u8>>>, Error> { Ok(Reader::new(ShapeReader::new(Cursor::new(out.shp.clone()))?, dbase::Reader::new(Cursor::new(out.dbf.clone()))?)) };
+        let r7 = pairs_of(mkn().and_then(|mut r| r.read()));
+        let r8 = pairs_of(mkn().and_then(|mut r| r.iter_shapes_and_records().collect::<Result<Vec<_>, Error>>()));
+        let twice = |mut r: Reader<Cursor<Vec<u8>>, Cursor<Vec<u8>>>| -> Result<Vec<(Shape, Record)>, Error> {
+            if let Some(x) = r.iter_shapes_and_records().next() {
+                x?;
+            }
+            r.read()
+        };
+        let r9 = pairs_of(mkn().and_then(twice));
+        let r10 = pairs_of(mk().and_then(twice));
+        vec![
+            ("Reader::read", r1),
+            ("Reader::iter_shapes_and_records", r2),
+            ("iter.skip(1)", r3),
+            ("iter.step_by(2)", r4),
+            ("iter.nth(2)", r5),
+            ("iter_as.skip(2)", r6),
+            ("no-index:Reader::read", r7),
+            ("no-index:iter_shapes_and_records", r8),
+            ("no-index:one pair iterated, then read()", r9),
+            ("one pair iterated, then read()", r10),
+        ]
     });
     match read {
         Ok(read) => judge(t, word, "cursor", &out, &read, case, rep),
